@@ -145,6 +145,67 @@ func runC02(c *core.Case) {
 	if !ok {
 		return
 	}
+	// returned points belong to the caller: editing them must not change what the next identical query returns
+	if r.P(0.15) {
+		saved := make([]object.Point, len(vs))
+		for i, p := range vs {
+			saved[i] = *p
+		}
+		vs[r.Intn(8)].SetAlt(12345.5)
+		vs[r.Intn(8)].SetLon(-1.25)
+		vs[r.Intn(8)].SetLat(2.5)
+		vs2, e := shape.GetPointOnExtendedSpatialId(s, enum.Vertex)
+		c.Call()
+		if e != nil || len(vs2) != 8 {
+			c.Fail("vertex-error", nil, "second identical query of %s: %d points, err %v", s, len(vs2), e)
+			return
+		}
+		for i := range vs2 {
+			if *vs2[i] != saved[i] {
+				c.Fail("result-aliased", nil, "GetPointOnExtendedSpatialId(%s, Vertex) asked again after the caller edited the previously returned points: corner %d is now (%v,%v,%v), was (%v,%v,%v)", s, i, vs2[i].Lon(), vs2[i].Lat(), vs2[i].Alt(), saved[i].Lon(), saved[i].Lat(), saved[i].Alt())
+				return
+			}
+		}
+		vs = vs2
+		c.Tag("edited-returned-points")
+	}
+	// a query of a "decimal-packed sibling" right before: (zoom+1, row-10^k) packs to the same decimal key as (zoom, row)
+	if pSib := map[bool]float64{true: 0.5, false: 0.03}[id.H >= 34]; r.P(pSib) {
+		k := int64(1)
+		for i := r.Range(9, 11); i > 0; i-- {
+			k *= 10
+		}
+		if id.H >= 34 { // indices reach 11 decimal digits only at zooms 34 and 35
+			k = 10_000_000_000
+		}
+		sib := ref.ID{H: id.H - 1, X: id.X >> 1, Y: id.Y + k, V: id.V, F: id.F}
+		if r.Bool() {
+			sib = ref.ID{H: id.H + 1, X: id.X, Y: id.Y - k, V: id.V, F: id.F}
+		}
+		if sib.Valid() {
+			sv, se := shape.GetPointOnExtendedSpatialId(sib.Ext(), enum.Vertex)
+			if se != nil {
+				c.Fail("vertex-error", nil, "query of %s: %v", sib.Ext(), se)
+				return
+			}
+			if _, ok := c02Vertices(c, sib, sib.Ext(), sv, "GetPointOnExtendedSpatialId(after "+s+")"); !ok {
+				return
+			}
+			again, e := shape.GetPointOnExtendedSpatialId(s, enum.Vertex)
+			c.Calls(2)
+			if e != nil || len(again) != 8 {
+				c.Fail("vertex-error", nil, "query of %s after %s: %v", s, sib.Ext(), e)
+				return
+			}
+			for i := range again {
+				if *again[i] != *vs[i] {
+					c.Fail("history-dependent-geometry", nil, "GetPointOnExtendedSpatialId(%s) returns a different corner %d after a query of %s", s, i, sib.Ext())
+					return
+				}
+			}
+			c.Tag("decimal-sibling-history")
+		}
+	}
 	// centre
 	cs, err := shape.GetPointOnExtendedSpatialId(s, enum.Center)
 	c.Call()
